@@ -62,7 +62,7 @@ var (
 	denom0s   = []string{"atom", "ion"}
 	quotes    = []string{"uosmo", "usdc"}
 	spacings  = []uint64{1, 10, 100, 1000}
-	spreads   = []string{"0", "0.0001", "0.0005", "0.001", "0.002", "0.003", "0.005", "0.0005", "0.002"}
+	spreads   = []string{"0", "0.0001", "0.0005", "0.001", "0.002", "0.003", "0.005", "0.0005", "0.002", "0", "0"}
 	uptimeSet = []time.Duration{time.Nanosecond, time.Minute, time.Hour}
 )
 
@@ -92,6 +92,15 @@ func (Engine) Generate(r *simcore.RNG, tier string, idx int) *simcore.Plan {
 	if r.Chance(0.5) {
 		regime = 1
 	}
+	// "round world": price exactly 1, spacing 100, no spread factor, position boundaries on ticks whose
+	// square-root price is a short decimal (0.5 0.9 0.99 1.01 1.02 1.1 1.5 2) and round token amounts, so that
+	// liquidities are whole numbers and swaps can consume their input to the last unit exactly on a tick -
+	// the constellations (exact equality on a boundary) that random magnitudes never produce
+	round := r.Chance(0.12)
+	if round {
+		p.Config["round"] = 1
+		p.Config["price"] = 0
+	}
 	faults := idx%2 == 1
 	npools := int(r.Range(1, 3))
 	for i := 0; i < npools; i++ {
@@ -120,7 +129,10 @@ func (Engine) Generate(r *simcore.RNG, tier string, idx int) *simcore.Plan {
 		case 3:
 			st.Op = "swap"
 			// user, pool, dir, exactIn, kind, arg, offset
-			st.A = []int64{r.Range(0, 4), r.Range(0, 2), r.Range(0, 1), r.Range(0, 1), r.Range(0, 4), r.Range(1, 9999), []int64{-1, 0, 1}[r.Intn(3)], r.Range(1, 3)}
+			st.A = []int64{r.Range(0, 4), r.Range(0, 2), r.Range(0, 1), r.Range(0, 1), int64(r.Weighted([]int{17, 17, 17, 32, 17})), r.Range(1, 9999), []int64{-1, 0, 0, 1}[r.Intn(4)], r.Range(1, 3)}
+			if round && r.Chance(0.7) {
+				st.A[4], st.A[6] = 3, []int64{0, 0, 0, 0, -1, 1}[r.Intn(6)]
+			}
 		case 4:
 			st.Op = "cspread"
 			st.A = []int64{r.Range(0, 63)}
@@ -213,6 +225,7 @@ type refPos struct {
 }
 
 type world struct {
+	round       bool // round-number world (see Generate)
 	run         *simcore.Run
 	n           *simchain.Node
 	users       int
@@ -321,7 +334,7 @@ func (Engine) Execute(run *simcore.Run) {
 		mg.Minter.EpochProvisions = osmomath.ZeroDec()
 		gs[minttypes.ModuleName] = cdc.MustMarshalJSON(&mg)
 	}})
-	w := &world{run: run, n: n, users: users, pos: map[uint64]*refPos{}, uptimes: uptimeSet[:nUp], threshold: threshold}
+	w := &world{run: run, n: n, users: users, pos: map[uint64]*refPos{}, uptimes: uptimeSet[:nUp], threshold: threshold, round: p.Cfg("round", 0) == 1}
 
 	begin := func(dt time.Duration) bool {
 		if pv := n.BeginBlock(dt); pv != nil {
